@@ -52,6 +52,10 @@ def gen_wallet(rng, n, addr="k0", ada_only=False, coin_lo=1_500_000, coin_hi=60_
         u = {"id": f"{prefix}{i}", "txid": t, "ix": ix, "addr": addr, "coin": coin}
         if not ada_only and rng.random() < 0.5:
             u["assets"] = gen_assets(rng)
+        if rng.random() < 0.06:
+            # a wallet that parks reference scripts at its own address: the UTxO carries a script (charged by the ledger's
+            # reference-script fee when it is spent, however it got among the inputs)
+            u["script"] = rng.choice(["p2:held", "p3:held2", ["pk", "k7"]])
         out.append(u)
     return out
 
